@@ -1,4 +1,4 @@
-import DoltVerif.Lemmas.ProllyMergeKeywise
+import DoltVerif.Lemmas.ProllyMergeRange
 import DoltVerif.Props.C13
 /-!
 C14 — Three-way tree merges follow key-wise merge semantics.
@@ -256,6 +256,159 @@ theorem conflict_iff_resolver_refuses (resolve : ResolveCb) (l r : Event) (hl : 
   rw [this.1]
   cases resolve l.to? r.to? l.from? <;> simp
 
+/-! ### the patch-based merge, proved for the leaf-patch-only generator -/
+
+/-- **patch_merge_refines_leaf**: for all sorted single-leaf (base, left, right) — i.e. whenever the
+two `PatchGenerator`s only produce point patches — and every collision handler, every run of
+`ThreeWayMerge` (`PatchGeneratorFromRoots` ×2 → `SendPatches` with `getNextAndSplitIfAtEnd` →
+`ApplyPatches`) that stays within its fuel returns
+
+* a strictly ascending content in which every key `k` maps to `mergeKey` of what base, left and
+  right map `k` to (`sorted_ext`: this determines the content uniquely, it *is* the key-wise merge):
+  right-only changes applied, identical changes kept, differently changed keys resolved by the
+  handler, left's value kept on a conflict;
+* exactly the collisions the key-wise specification prescribes — `c` is handed to the handler iff
+  some key is changed on both sides to different results with `c` as the pair of changes —, each
+  once, in ascending key order;
+* the patch stream `sendSpec` of the two merge walks (point patches only). -/
+theorem patch_merge_refines_leaf {cmp : Bytes → Bytes → Ordering} (ol : OrdLaws cmp) (collide : Collide) (kb kl kr : List KV)
+    (sb : Sorted cmp kb) (sl : Sorted cmp kl) (sr : Sorted cmp kr)
+    (content : List KV) (ps : List Patch) (cs : List Collision)
+    (h : threeWayMerge cmp collide (.leaf kb) (.leaf kl) (.leaf kr) = .ok (content, ps, cs)) :
+    Sorted cmp content ∧
+    (∀ k, lookupKV cmp k content = (mergeKey collide (lookupKV cmp k kb) (lookupKV cmp k kl) (lookupKV cmp k kr)).1) ∧
+    (∀ c, c ∈ cs ↔ ∃ k, (mergeKey collide (lookupKV cmp k kb) (lookupKV cmp k kl) (lookupKV cmp k kr)).2 = some c) ∧
+    cs.Pairwise (fun c1 c2 => cmp c1.left.key c2.left.key = .lt) ∧
+    (∀ p ∈ ps, p.level = 0) := by
+  obtain ⟨hps, hcont⟩ := threeWayMerge_leaf ol.refl collide kb kl kr content ps cs h
+  have e1 : ps = (sendSpec cmp collide (specDiffP cmp kb kl) (specDiffP cmp kb kr)).1 := congrArg Prod.fst hps
+  have e2 : cs = (sendSpec cmp collide (specDiffP cmp kb kl) (specDiffP cmp kb kr)).2 := congrArg Prod.snd hps
+  obtain ⟨_, pl⟩ := leaf_patches_asc ol collide sb sl sr
+  obtain ⟨cm, ca⟩ := leaf_merge_collisions ol collide sb sl sr
+  subst hcont
+  rw [e1, e2]
+  exact ⟨applyPatches_points_sorted ol _ _ sl pl, leaf_merge_lookup ol collide sb sl sr, cm, ca, pl⟩
+
+/-- uniqueness: a strictly ascending content is determined by its lookups -/
+theorem content_determined_by_lookups {cmp : Bytes → Bytes → Ordering} (ol : OrdLaws cmp) {a b : List KV}
+    (sa : Sorted cmp a) (sb : Sorted cmp b) (h : ∀ k, lookupKV cmp k a = lookupKV cmp k b) : a = b :=
+  sorted_ext ol sa sb h
+
+theorem sorted_nodup {cmp : Bytes → Bytes → Ordering} (ol : OrdLaws cmp) {l : List KV} (h : Sorted cmp l) : (l.map (·.1)).Nodup := by
+  rw [List.Nodup, List.pairwise_map]
+  exact h.imp (fun hlt he => by rw [he, ol.refl] at hlt; simp at hlt)
+
+theorem effect_matchEdit_conflict (l r : Event) (x : Option KV) : effect (matchEdit (fun _ _ _ => none) l r) x = x := by
+  simp only [matchEdit]
+  split <;> (try split) <;> (try split) <;>
+    first
+      | (cases ht : l.type <;> simp [effect, newConvergentEdit, ht])
+      | simp [effect]
+
+theorem foldl_applyTW_sorted {cmp : Bytes → Bytes → Ordering} (ol : OrdLaws cmp) : ∀ (ds : List TWDiff) (l : List KV),
+    Sorted cmp l → Sorted cmp (ds.foldl (applyTW cmp) l)
+  | [], l, h => by simpa using h
+  | d :: ds, l, h => by
+    simp only [List.foldl_cons]
+    exact foldl_applyTW_sorted ol ds _ (applyTW_sorted ol d h)
+
+theorem changeD_none_iff (b x : Option KV) : changeD b x = none ↔ changeOf b x = none := by
+  cases b <;> cases x <;> simp [changeD, changeOf]
+
+/-- the two key-wise specifications agree when both handlers always report a conflict, as soon as
+base and right spell the key with the same bytes -/
+theorem spec_paths_agree (b l r : Option KV) (hbr : ∀ a ∈ b, ∀ y ∈ r, a.1 = y.1) :
+    (mergeKey (fun _ _ => none) b l r).1 = mergeKeyTW (fun _ _ _ => none) b l r := by
+  unfold mergeKey mergeKeyTW
+  cases hcr : changeOf b r with
+  | none =>
+    have : changeD b r = none := (changeD_none_iff b r).mpr hcr
+    rw [this]
+  | some er =>
+    have hd : ∃ er', changeD b r = some er' := by
+      cases hx : changeD b r with
+      | none => rw [(changeD_none_iff b r).mp hx] at hcr; simp at hcr
+      | some e => exact ⟨e, rfl⟩
+    obtain ⟨er', hdr⟩ := hd
+    rw [hdr]
+    cases hcl : changeOf b l with
+    | some el =>
+      have hdl : ∃ el', changeD b l = some el' := by
+        cases hx : changeD b l with
+        | none => rw [(changeD_none_iff b l).mp hx] at hcl; simp at hcl
+        | some e => exact ⟨e, rfl⟩
+      obtain ⟨el', hdl⟩ := hdl
+      rw [hdl]
+      simp only [effect_matchEdit_conflict]
+      split <;> rfl
+    | none =>
+      have : changeD b l = none := (changeD_none_iff b l).mpr hcl
+      rw [this]
+      simp only []
+      -- only right changed the key: right's mapping, spelled with base's key bytes on the differ path
+      cases b with
+      | none =>
+        cases r with
+        | none => simp [changeD] at hdr
+        | some y => simp [changeD] at hdr; subst hdr; simp [effect, newRightEdit, Event.added]
+      | some a =>
+        cases r with
+        | none => simp [changeD] at hdr; subst hdr; simp [effect, newRightEdit, Event.removed]
+        | some y =>
+          have hk := hbr a (by simp) y (by simp)
+          simp only [changeD] at hdr
+          by_cases hv : a.2 = y.2
+          · simp [hv] at hdr
+          · simp [hv] at hdr; subst hdr
+            simp [effect, newRightEdit, Event.modified]
+            exact Prod.ext hk.symm rfl
+
+/-- **merge_paths_agree_leaf**: for sorted single-leaf (base, left, right) under a byte-exact key order
+(keys that compare equal are equal) and conflict-reporting handlers on both interfaces, the
+patch-based merge and the three-way differ's edits applied to left produce the same map. -/
+theorem merge_paths_agree_leaf {cmp : Bytes → Bytes → Ordering} (ol : OrdLaws cmp) (hexact : ∀ a b, cmp a b = .eq → a = b)
+    (kb kl kr : List KV) (sb : Sorted cmp kb) (sl : Sorted cmp kl) (sr : Sorted cmp kr)
+    (content : List KV) (ps : List Patch) (cs : List Collision) (ds : List TWDiff)
+    (h1 : threeWayMerge cmp (fun _ _ => none) (.leaf kb) (.leaf kl) (.leaf kr) = .ok (content, ps, cs))
+    (h2 : threeWayDiffer cmp (fun _ _ _ => none) false false (.leaf kb) (.leaf kl) (.leaf kr) = some ds) :
+    content = ds.foldl (applyTW cmp) kl := by
+  obtain ⟨sc, hlook, _⟩ := patch_merge_refines_leaf ol _ kb kl kr sb sl sr content ps cs h1
+  have store : Addr → Option Tree := fun _ => none
+  have wb : (Tree.leaf kb).WF store := by simpa [Tree.WF] using sorted_nodup ol sb
+  have wl : (Tree.leaf kl).WF store := by simpa [Tree.WF] using sorted_nodup ol sl
+  have wr : (Tree.leaf kr).WF store := by simpa [Tree.WF] using sorted_nodup ol sr
+  have asc := (differ3_classifies ol _ false false _ _ _ wb wl wr sb sl sr ds h2).2
+  have stw : Sorted cmp (ds.foldl (applyTW cmp) kl) := foldl_applyTW_sorted ol ds kl sl
+  apply sorted_ext ol sc stw
+  intro k
+  have tw := tw_merge_keywise ol _ _ _ _ wb wl wr sb sl sr ds h2 k
+  simp only [Tree.flatten] at tw
+  rw [hlook k, tw]
+  apply spec_paths_agree
+  intro a ha y hy
+  simp at ha hy
+  have h1 := (lookup_some_iff ol k sb a).mp ha
+  have h2 := (lookup_some_iff ol k sr y).mp hy
+  exact hexact _ _ (ol.eq_trans (ol.eq_symm h1.2) h2.2)
+
+/-- **range_patch_lookup** (obligation R3 of the range-patch part, proved): applying one range patch
+`(keyBelowStart, endKey] ↦ subtree` (or `↦ nothing` for a removed range) to a strictly ascending
+content replaces exactly the keys of that interval by the subtree's pairs and leaves every other key
+as it was. -/
+theorem range_patch_lookup {cmp : Bytes → Bytes → Ordering} (ol : OrdLaws cmp) (p : Patch) (hp : p.level ≠ 0) {l : List KV} (sl : Sorted cmp l)
+    (ins : List KV) (hto : ins = match p.to? with | some (.sub _ t) => t.flatten | _ => [])
+    (hlohi : ∀ a, p.keyBelowStart = some a → cmp a p.endKey ≠ .gt)
+    (hins : ∀ x ∈ ins, (∀ a, p.keyBelowStart = some a → cmp a x.1 = .lt) ∧ cmp x.1 p.endKey ≠ .gt) (k : Bytes) :
+    lookupKV cmp k (applyPatch cmp l p) =
+      if (∀ a, p.keyBelowStart = some a → cmp a k = .lt) ∧ cmp k p.endKey ≠ .gt then lookupKV cmp k ins
+      else lookupKV cmp k l := by
+  have hb : (p.level == 0) = false := by simpa using hp
+  unfold applyPatch
+  simp only [hb, Bool.false_eq_true, if_false]
+  have := lookup_replaceRange ol sl p.keyBelowStart p.endKey hlohi hins k
+  rw [hto] at this ⊢
+  exact this
+
 /-! ### statements that are compared by the harness, not proved -/
 
 /-- the full refinement of the chunk-level patch merge (range patches, splits) to the key-wise
@@ -290,5 +443,13 @@ example : threeWayDiffer ciCompare (fun _ _ _ => none) false false C13.exA C13.e
   have h1 : diffRoots ciCompare false C13.exA C13.exB = some [Event.modified ([3], [30]) ([3], [31]), Event.added ([4], [40])] := by decide
   have h2 : diffRoots ciCompare false C13.exA C13.exA = some [] := by decide
   simp [threeWayDiffer, h1, h2, twNext]
+
+/-- a leaf-level triple with one collision (key 1 changed differently on both sides, handler reports a
+conflict ⇒ left's value stays) and one right-only addition (key 2) -/
+example :
+    (match threeWayMerge ciCompare (fun _ _ => none) (.leaf [([1], [10])]) (.leaf [([1], [11])]) (.leaf [([1], [12]), ([2], [20])]) with
+     | .ok (content, ps, cs) => decide (content = [([1], [11]), ([2], [20])]) && ps.length == 1 && cs.length == 1
+     | .error _ => false) = true := by
+  decide
 
 end DoltVerif.C14
